@@ -157,6 +157,7 @@ def run(tier, replay=None):
     n = 40 if tier == 'quick' else 600
     v.coverage['random_walks_lossless'] = random_walks(v, [rnd.randrange(1 << 30) for _ in range(n)], 50 if tier == 'quick' else 90, lossy=False)
     v.coverage['random_walks_lossy'] = random_walks(v, [rnd.randrange(1 << 30) for _ in range(n)], 50 if tier == 'quick' else 90, lossy=True)
+    ikeprop.run_traces(v, 30 if tier == 'quick' else 600, 60 if tier == 'quick' else 150)     # binding B: recorded random schedules validated by TLC
     v.assumptions += ['expire triggers concern CHILD_SAs already known to both peers (carve-out in the property statement)',
                       'at rest = lossless drain, then one liveness probe per established IKE_SA, unanswered requests run out of budget']
     return v.finish()
